@@ -3,7 +3,7 @@ C17 layer 1 — the Action base lifecycle with the loop's deferred queue, for on
 behaviour is entirely driven from outside (a DummyAction: its owner calls finish()/block() at any
 time, in any state).  `bstep` is built from the functions of Model.lean only.
 -/
-import TboxModel.C17.Model
+import TboxModel.C17.Inv
 namespace Tbox.C17
 
 /-- everything that can happen to one action -/
@@ -38,13 +38,6 @@ def finsSinceReset : List Ev → Nat
   | .rst 0 :: _ => 0
   | .rootFin _ _ _ :: rest => finsSinceReset rest + 1
   | _ :: rest => finsSinceReset rest
-
-def TK.isFin : TK → Bool
-  | .fin _ _ => true
-  | _ => false
-def TK.isBlk : TK → Bool
-  | .blk _ => true
-  | _ => false
 
 def pendingFins (d : Node) : Nat := (d.tasks.filter fun p => p.2.isFin).length
 
